@@ -31,7 +31,7 @@
 (* word size MAX (99, 999, 32767 in the configurations; 2^63-1 in the code).       *)
 EXTENDS Integers, Sequences, FiniteSets, TLC
 
-CONSTANTS A1, N1, A2, N2, A3, N3, A4, N4, A5, N5,   \* token alphabets and length bounds
+CONSTANTS A1, N1, A2, N2, A3, N3, A4, N4, A5, N5, A6, N6,   \* token alphabets and length bounds
           MAX,        \* largest value of the signed integer type (operational side)
           MaxDigits,  \* the decimal digits of the machine's MAX for the declarative range rule
           Extra       \* further texts: boundary families, texts read from a file
@@ -55,7 +55,7 @@ Lw(c) == IF c \in DOMAIN UpLo THEN UpLo[c] ELSE c
 LowerLetters == {UpLo[k] : k \in DOMAIN UpLo}
 
 \* tokens that stand for several characters (so that short token sequences reach the long words)
-MultiTok == {"inf", "INF", "inity", "nan", "NaN", "0x", "0X"}
+MultiTok == {"inf", "INF", "inity", "nan", "NaN", "0x", "0X", "e9999", "e-9999"}
 TokChars(t) ==
   CASE t = "inf"   -> <<"i", "n", "f">>
     [] t = "INF"   -> <<"I", "N", "F">>
@@ -64,12 +64,13 @@ TokChars(t) ==
     [] t = "NaN"   -> <<"N", "a", "N">>
     [] t = "0x"    -> <<"0", "x">>
     [] t = "0X"    -> <<"0", "X">>
+    [] t = "e9999" -> <<"e", "9", "9", "9", "9">>
+    [] t = "e-9999" -> <<"E", "-", "9", "9", "9", "9">>
     [] OTHER       -> <<t>>
 RECURSIVE ExpandRec(_)
 ExpandRec(toks) == IF toks = <<>> THEN <<>> ELSE TokChars(Head(toks)) \o ExpandRec(Tail(toks))
 Expand(toks) == IF \A i \in 1..Len(toks) : toks[i] \notin MultiTok THEN toks ELSE ExpandRec(toks)
 
-MinOf(S) == CHOOSE x \in S : \A y \in S : x <= y
 MaxOf2(a, b) == IF a >= b THEN a ELSE b
 
 -----------------------------------------------------------------------------
@@ -108,7 +109,10 @@ IsExp(x) ==
   IN d # <<>> /\ \A i \in 1..Len(d) : d[i] \in DecDigit
 
 \* position of the first character that is ch in either case, 0 if none
-FirstPos(b, ch) == LET S == {i \in 1..Len(b) : Lw(b[i]) = ch} IN IF S = {} THEN 0 ELSE MinOf(S)
+\* (written so that TLC finds it in linear time: long boundary texts have ~1500 characters)
+FirstPos(b, ch) == IF \E i \in 1..Len(b) : Lw(b[i]) = ch
+                   THEN CHOOSE i \in 1..Len(b) : Lw(b[i]) = ch /\ \A j \in 1..(i-1) : Lw(b[j]) # ch
+                   ELSE 0
 
 \* decimal: mantissa up to the first e/E, the rest is the exponent
 DecM(b) == LET p == FirstPos(b, "e") IN IF p = 0 THEN b ELSE SubSeq(b, 1, p - 1)
@@ -129,9 +133,13 @@ FloatClass(t) == IF IsNan(t) THEN "nan" ELSE IF IsInf(t) THEN "inf"
                  ELSE IF IsDec(t) THEN "dec" ELSE IF IsHex(t) THEN "hex" ELSE "bad"
 
 \* --- denotation
-StripLZ(d) == LET S == {i \in 1..Len(d) : d[i] # "0"} IN IF S = {} THEN <<>> ELSE SubSeq(d, MinOf(S), Len(d))
-MantDigits(m) == LET d == SelectSeq(m, LAMBDA c : c # ".") IN [i \in 1..Len(d) |-> Lw(d[i])]
-FracLen(m) == LET S == {i \in 1..Len(m) : m[i] = "."} IN IF S = {} THEN 0 ELSE Len(m) - MinOf(S)
+StripLZ(d) == IF \E i \in 1..Len(d) : d[i] # "0"
+              THEN SubSeq(d, CHOOSE i \in 1..Len(d) : d[i] # "0" /\ \A j \in 1..(i-1) : d[j] = "0", Len(d))
+              ELSE <<>>
+MantDigits(m) == LET d == SelectSeq(m, LAMBDA c : c # ".")
+                     G[i \in 0..Len(d)] == IF i = 0 THEN <<>> ELSE Append(G[i - 1], Lw(d[i]))
+                 IN IF \A i \in 1..Len(d) : d[i] \in DecDigit THEN d ELSE G[Len(d)]
+FracLen(m) == LET p == FirstPos(m, ".") IN IF p = 0 THEN 0 ELSE Len(m) - p
 ExpNeg(x)    == IF x # <<>> /\ x[1] = "-" THEN 1 ELSE 0
 ExpDigits(x) == IF x # <<>> /\ x[1] \in {"+", "-"} THEN Tail(x) ELSE x
 
@@ -359,14 +367,14 @@ NoExtra == {}
 
 \* Texts are explored by extension, one family (alphabet, bound) at a time, so that TLC's workers
 \* share the work; fam = 0 marks the Extra texts.
-Alpha(k) == CASE k = 1 -> A1 [] k = 2 -> A2 [] k = 3 -> A3 [] k = 4 -> A4 [] k = 5 -> A5
-Bound(k) == CASE k = 1 -> N1 [] k = 2 -> N2 [] k = 3 -> N3 [] k = 4 -> N4 [] k = 5 -> N5
+Alpha(k) == CASE k = 1 -> A1 [] k = 2 -> A2 [] k = 3 -> A3 [] k = 4 -> A4 [] k = 5 -> A5 [] k = 6 -> A6
+Bound(k) == CASE k = 1 -> N1 [] k = 2 -> N2 [] k = 3 -> N3 [] k = 4 -> N4 [] k = 5 -> N5 [] k = 6 -> N6
 
 VARIABLES toks, fam
 vars == <<toks, fam>>
-Init == \/ fam \in 1..5 /\ toks = <<>>
+Init == \/ fam \in 1..6 /\ toks = <<>>
         \/ fam = 0 /\ toks \in Extra
-Next == /\ fam \in 1..5
+Next == /\ fam \in 1..6
         /\ Len(toks) < Bound(fam)
         /\ \E a \in Alpha(fam) : toks' = Append(toks, a)
         /\ fam' = fam
@@ -460,6 +468,29 @@ ThresholdRule ==
   /\ SeqValue(ThresholdDigits, 10) = (MAX - 10) \div 10
   /\ SeqValue(UMaxDigits, 10) = UMAX
   /\ SeqValue(MinMagDigits, 10) = MAX + 1
+
+\* The harness's concretisations leave the classification alone: flipping the letter case of the
+\* whole text, and writing any of 2..8 for the digit 1 (away from the range boundary).
+LoUp == [a |-> "A", b |-> "B", c |-> "C", d |-> "D", e |-> "E", f |-> "F", g |-> "G", h |-> "H",
+         i |-> "I", j |-> "J", k |-> "K", l |-> "L", m |-> "M", n |-> "N", o |-> "O", p |-> "P",
+         q |-> "Q", r |-> "R", s |-> "S", t |-> "T", u |-> "U", v |-> "V", w |-> "W", x |-> "X",
+         y |-> "Y", z |-> "Z"]
+FlipChar(ch) == IF ch \in DOMAIN UpLo THEN UpLo[ch] ELSE IF ch \in DOMAIN LoUp THEN LoUp[ch] ELSE ch
+MapSeq(F(_), sq) == LET G[ix \in 0..Len(sq)] == IF ix = 0 THEN <<>> ELSE Append(G[ix - 1], F(sq[ix])) IN G[Len(sq)]
+CaseBlind ==
+  LET ft == MapSeq(FlipChar, Text) IN
+  /\ FloatParts(ft) = FloatParts(Text)
+  /\ IsIntText(ft) = IsIntText(Text)
+DigitBlind ==
+  \A kk \in {3, 6, 9} :                          \* DigitOrder[kk] is the digit kk-1: 2, 5, 8
+    LET Sub(ch) == IF ch = "1" THEN DigitOrder[kk] ELSE ch
+        st == MapSeq(Sub, Text)
+        pa == FloatParts(Text)
+        pb == FloatParts(st)
+    IN /\ pb.class = pa.class /\ pb.sign = pa.sign /\ pb.es = pa.es /\ pb.fl = pa.fl
+       /\ pb.digits = MapSeq(Sub, pa.digits) /\ pb.ed = MapSeq(Sub, pa.ed)
+       /\ IsIntText(st) = IsIntText(Text)
+       /\ IsIntText(Text) => IntDigits(st) = MapSeq(Sub, IntDigits(Text))
 
 \* every integer text is a decimal float text with the same value
 IntIsFloat ==
